@@ -71,8 +71,8 @@ def run(chk):
                             "trailing axes, all query axes dropped (shape %s)" % (key, t.d['shape'] if t is not None else None), ok, where, key + '-subview')
     # R14.3 built-in strategies
     n3 = 0
-    for name, o in (('Linear', run_linear(lib, False, 'inside')), ('CubicSpline', run_spline(lib, 'No', 'inside')),
-                    ('Bilinear', run_bilinear(lib, False, 'inside', 'inside'))):
+    for name, o in (('Linear', run_linear(lib, True, 'inside')), ('CubicSpline', run_spline(lib, 'Yes', 'inside')),
+                    ('Bilinear', run_bilinear(lib, True, 'inside', 'inside'))):
         evs = [e for e in o.m.events if e[0] == 'zip_for_each'] if o.kind == 'ok' else []
         ok = len(evs) == 1 and any(k == 'target' for k, _ in evs[0][1]) and any(k == 'lanes' and (lbl.startswith('y[') or lbl.startswith('z[')) for k, lbl in evs[0][1])
         n3 += 1
